@@ -5,7 +5,7 @@ import c13ref as R
 
 META = {
     "category": "proof",
-    "text": "Lean theorems over two executable models of src/liblzma/common/index.c: an abstract list-of-records spec (Index = List StreamRec) and a concrete model with Stream/group trees, cumulative sums, number bases, the Check mask, the count-driven tree append, cat/dup and the iterator: the concrete model refines the spec for every history of append/stream_flags/stream_padding/cat/dup, failing operations leave the index unchanged, the sequential tree append keeps the in-order sequence, locate returns the unique non-empty Block containing the offset, the Index field codec round-trips; scalar kernels and constants are regenerated from the source and bridged by `decide`. Tie: random op histories (values near every limit, group boundaries 512+-1, stream-tree rotation counts 2^k+-1, empty Blocks, malformed Index fields, generated multi-Stream files for lzma_file_info_decoder with many read sizes) run against the real lzma_index_* API, the Lean model driver and an independent Python list-of-records reference; all getters and full iterations must agree.",
+    "text": "Lean theorems over two executable models of src/liblzma/common/index.c: an abstract list-of-records spec (Index = List StreamRec) and a concrete model with Stream/group trees, cumulative sums, number bases, the Check mask, the count-driven tree append, cat/dup and the iterator: the concrete model refines the spec for every history of append/stream_flags/stream_padding/cat/dup, failing operations leave the index unchanged, the sequential tree append keeps the in-order sequence, locate returns the unique non-empty Block containing the offset, the Index field codec round-trips; scalar kernels and constants are regenerated from the source and bridged by `decide`. Tie: random op histories (values near every limit, group boundaries 512+-1, stream-tree rotation counts 2^k+-1, empty Blocks, malformed Index fields, generated multi-Stream files for lzma_file_info_decoder with many read sizes) run against the real lzma_index_* API, the Lean model driver and an independent Python list-of-records reference; all getters and full iterations must agree. Real multi-Stream/multi-Block files made by the repo's xz: every Block located through the file-info index is decoded on its own (by Python's lzma module) and must equal its range of the data; `xz --list --robot -vv` must show the same figures.",
     "note": "Trusted: Lean kernel + propext/Classical.choice/Quot.sound; the probe harness/gen_c13.c; the harness; the C compiler; memory safety of the C code only as observed by ASan/UBSan/asserts. LZMA_BACKWARD_SIZE_MAX rules are proved in the model and bridged as constants but cannot be reached by a run (needs ~10^9 Records). See evidence for which theorems are partial.",
     "technique": "Lean 4 proof over an executable model + regenerated constants/kernels + differential correspondence + Python reference oracle",
 }
@@ -547,10 +547,26 @@ def h_hash(ctx, rng, fe):
     return h
 
 
+def h_corpus(ctx, fe):
+    """Minimised histories of past findings (corpus/C13-*.json), replayed first on every run."""
+    import glob
+    out = []
+    for path in sorted(glob.glob(os.path.join(vlib.ROOT, "corpus", "C13-*.json"))):
+        try:
+            ops = json.load(open(path))["ops"]
+        except Exception:
+            continue
+        h = Hist(ctx, "corpus", fe)
+        for l in ops[1:] if ops and ops[0] == "reset" else ops:
+            h.do(l)
+        out.append(h)
+    return out
+
+
 def gen_histories(ctx, fe):
     rng = ctx.rng
     q = ctx.quick()
-    hs = []
+    hs = h_corpus(ctx, fe)
     for _ in range(60 if q else 400):
         hs.append(h_random(ctx, rng, fe, rng.randrange(10, 80 if q else 200)))
     for _ in range(6 if q else 30):
@@ -699,6 +715,151 @@ def classify(detail, ops):
     if detail.get("kind", "").startswith("implementation hangs"):
         return "hang"
     return "mismatch-" + (op.split()[0] if op else "unknown")
+
+
+# ---------------------------------------------------------------------------------------------
+# real .xz files: file-info index vs the data (random access) and vs `xz --list --robot -vv`
+# ---------------------------------------------------------------------------------------------
+
+CHECK_NAMES = {0: "None", 1: "CRC32", 4: "CRC64", 10: "SHA-256"}
+
+
+def parse_items(line):
+    """Items of an `iter` answer -> list of (stream tuple, flags text, block tuple or None)."""
+    out = []
+    if line in ("empty", "null"):
+        return out
+    for it in line.split(" | "):
+        sp, _, bp = it.partition(";b:")
+        f = sp[2:].split(",")
+        out.append((tuple(int(x) for x in f[:7]), f[7], tuple(int(x) for x in bp.split(",")) if bp else None))
+    return out
+
+
+def make_real_file(rng, xz, quick):
+    """A multi-Stream, multi-Block .xz file made by the repo's own xz, plus the data it holds."""
+    import subprocess
+    data, out = b"", b""
+    for _ in range(rng.choice([1, 1, 2, 3, 4])):
+        n = rng.choice([0, 1, 100, 5000, rng.randrange(1, 40000 if quick else 200000)])
+        kind = rng.random()
+        if kind < 0.4:
+            piece = bytes(rng.getrandbits(8) for _ in range(n))
+        elif kind < 0.8:
+            words = [bytes(rng.getrandbits(8) for _ in range(rng.randrange(1, 9))) for _ in range(20)]
+            piece = b"".join(rng.choice(words) for _ in range(n // 4 + 1))[:n]
+        else:
+            piece = bytes([rng.getrandbits(8)]) * n
+        chk = rng.choice(["none", "crc32", "crc64", "sha256"])
+        cmd = [xz, "-c", "-T1", "-%d" % rng.choice([0, 1, 6]), "-C", chk]
+        if rng.random() < 0.8:
+            cmd.append("--block-size=%d" % rng.choice([1, 100, 4096, 5000, 65536]))
+        if rng.random() < 0.3:
+            cmd.append("--block-list=%s" % ",".join(str(rng.randrange(1, 3000)) for _ in range(rng.randrange(1, 5))))
+        p = subprocess.run(cmd, input=piece, stdout=subprocess.PIPE, stderr=subprocess.PIPE, timeout=120)
+        if p.returncode != 0:
+            raise RuntimeError("xz failed: " + p.stderr.decode()[:300])
+        data += piece
+        out += p.stdout + b"\0" * (4 * rng.choice([0, 0, 1, 3, 2048, 2049]))
+    return out, data
+
+
+def judge_real_file(exe, xz, filebytes, data, chunk, seed, workdir):
+    """Runs the file-info decoder of the implementation on a real file and checks its index against the data
+    (every Block decoded on its own by Python's lzma module = the system liblzma, an independent build) and
+    against `xz --list --robot -vv`. Returns an error text or None."""
+    import lzma, subprocess
+    ops = ["reset", "finfo 0 %d %d %d %s" % (1 << 40, chunk, seed, R.hexs(filebytes)), "sum 0", "iter 0 1", "iter 0 2"]
+    rc, out, err = run_hist(exe, ops, timeout=300)
+    if rc != 0 or len(out) != len(ops):
+        return "implementation aborted: " + err[-500:]
+    if not out[1].startswith("1 0 S"):
+        return "lzma_file_info_decoder failed on a valid file: " + out[1][:100]
+    ssum = out[2].split()
+    if int(ssum[6]) != len(filebytes) or int(ssum[7]) != len(data):
+        return "file size / uncompressed size of the index (%s, %s) differ from the real ones (%d, %d)" % (ssum[6], ssum[7], len(filebytes), len(data))
+    streams = parse_items(out[3])
+    blocks = parse_items(out[4])
+    if int(ssum[1]) != len(streams) or int(ssum[2]) != len(blocks):
+        return "iteration does not return every Stream/Block once"
+    # random access: every Block decodes, on its own, to exactly its range of the data
+    for st, fl, b in blocks:
+        nif, cfo, ufo, nis, cso, uso, usz, unp, tot = b
+        chk = int(fl.split("/")[2])
+        mini = R.stream_header(chk) + filebytes[cfo:cfo + tot]
+        s1 = R.Stream()
+        s1.add(unp, usz)
+        idx = R.index_encode([s1])
+        mini += idx + R.stream_footer(chk, len(idx))
+        try:
+            got = lzma.decompress(mini, format=lzma.FORMAT_XZ)
+        except Exception as ex:
+            return "Block %d at compressed offset %d (unpadded %d) does not decode: %s" % (nif, cfo, unp, ex)
+        if got != data[ufo:ufo + usz]:
+            return "Block %d decodes to other bytes than data[%d:%d]" % (nif, ufo, ufo + usz)
+    # xz --list
+    path = os.path.join(workdir, "real-%d.xz" % os.getpid())
+    with open(path, "wb") as f:
+        f.write(filebytes)
+    p = subprocess.run([xz, "--list", "--robot", "-vv", path], stdout=subprocess.PIPE, stderr=subprocess.PIPE, timeout=120)
+    os.unlink(path)
+    if p.returncode != 0:
+        return "xz --list failed: " + p.stderr.decode()[:300]
+    ls, lb = [], []
+    for ln in p.stdout.decode().split("\n"):
+        t = ln.split("\t")
+        if t[0] == "stream":
+            ls.append(t)
+        elif t[0] == "block":
+            lb.append(t)
+    if len(ls) != len(streams) or len(lb) != len(blocks):
+        return "xz --list shows %d Streams / %d Blocks, the index %d / %d" % (len(ls), len(lb), len(streams), len(blocks))
+    for t, (st, fl, _) in zip(ls, streams):
+        want = [str(st[0]), str(st[1]), str(st[2]), str(st[3]), str(st[4]), str(st[5]), CHECK_NAMES.get(int(fl.split("/")[2]), "?"), str(st[6])]
+        have = [t[1], t[2], t[3], t[4], t[5], t[6], t[8], t[9]]
+        if want != have:
+            return "xz --list stream line %s differs from the index %s" % (have, want)
+    for t, (st, fl, b) in zip(lb, blocks):
+        want = [str(st[0]), str(b[3]), str(b[0]), str(b[1]), str(b[2]), str(b[8]), str(b[6]), CHECK_NAMES.get(int(fl.split("/")[2]), "?")]
+        have = [t[1], t[2], t[3], t[4], t[5], t[6], t[7], t[9]]
+        if want != have:
+            return "xz --list block line %s differs from the index %s" % (have, want)
+    return None
+
+
+def real_files_stage(ctx, exe):
+    okr, log, bd = vlib.c_build("rel", targets=["xz"])
+    xz = os.path.join(bd, "xz")
+    if not okr or not os.path.exists(xz):
+        ctx.obligation_broken("stage B: the xz tool does not build (needed for the real-file part of C13)", log)
+        return
+    workdir = os.path.join(vlib.CACHE, "c13-scratch")
+    os.makedirs(workdir, exist_ok=True)
+    rng = ctx.rng
+    n = 8 if ctx.quick() else 60
+    cases = []
+    for _ in range(n):
+        fb, data = make_real_file(rng, xz, ctx.quick())
+        cases.append((fb, data, rng.choice([len(fb) + 1, 1 if len(fb) < 3000 else 7, 13, 4096, 8192, 8193, 70000]),
+                      rng.choice([0, 0, rng.randrange(1, 1 << 30)])))
+
+    def one(c):
+        return judge_real_file(exe, xz, c[0], c[1], c[2], c[3], workdir + "/t%d" % (id(c) % 100000))
+
+    for c in cases:
+        os.makedirs(workdir + "/t%d" % (id(c) % 100000), exist_ok=True)
+    res = vlib.par_map(one, cases)
+    bad = 0
+    for c, r in zip(cases, res):
+        ctx.case(("realfile", len(c[0]), len(c[1]), c[2], c[3], c[0][:64].hex()), nontrivial=True, sample=None)
+        ctx.count("real-file:streams-bytes<1k" if len(c[0]) < 1000 else "real-file:bytes>=1k")
+        if r is not None:
+            bad += 1
+            if bad <= 2:
+                ctx.violation("real-file", {"kind": r, "realfile_hex": c[0].hex(), "data_hex": c[1].hex(), "chunk": c[2], "seed_reads": c[3],
+                                            "how_to_replay": "./check C13 --replay <this file>"}, True)
+    ctx.cov["correspondence"]["real_files"] = {"files": len(cases), "failing": bad,
+                                               "checked": "file-info index vs data (each Block decoded alone by Python lzma) and vs xz --list --robot -vv"}
 
 
 def build_all(ctx):
@@ -856,6 +1017,8 @@ def run(ctx):
                                  "histories_contradicting_reference": nviol, "model_ran": m_out is not None, "model_mismatching_histories": nmodel,
                                  "quirk_F6b_empty_stream_park_hits": sum(len(h.ref.quirks) for h in hists)}
     ctx.count("quirk-empty-stream-park", sum(len(h.ref.quirks) for h in hists))
+    # real files made by the repo's xz: random access and xz --list
+    real_files_stage(ctx, exe)
     # S: the Python reference already judged every implementation answer directly (independent of the Lean side);
     # if only the Lean side is broken and no history contradicts the reference, finish() reports no-failing-input-found.
     if ctx.broken and not ctx.violations:
@@ -870,6 +1033,18 @@ def replay(ctx, path):
         print("cannot build")
         return 2
     R.load_constants(vlib.module_path("XzVerif.Gen.C13"))
+    if "realfile_hex" in r:
+        okr, log, bd = vlib.c_build("rel", targets=["xz"])
+        workdir = os.path.join(vlib.CACHE, "c13-scratch", "replay")
+        os.makedirs(workdir, exist_ok=True)
+        why = judge_real_file(exe, os.path.join(bd, "xz"), bytes.fromhex(r["realfile_hex"]), bytes.fromhex(r["data_hex"]),
+                              r.get("chunk", 4096), r.get("seed_reads", 0), workdir)
+        if why is not None:
+            print(why)
+            print("VIOLATION property=C13 replay=%s" % path)
+            return 1
+        print("replay passes")
+        return 0
     ops = r["ops"]
     fe = fe_load(ops, r.get("finfo_expect"))
     bad, detail = failing(exe, ops, fe)
